@@ -147,6 +147,9 @@ def load_via(kind, path, via, shm):
 
 def run_case(case):
     cfg = case["cfg"]
+    from vf.world import reset_interference
+
+    reset_interference()
     kind = cfg["kind"]
     U = case["U"]
     tmp = tempfile.mkdtemp(prefix="vf_c10_")
